@@ -79,6 +79,8 @@ type result struct {
 	MaxStallUs     int64     `json:"max_sched_delay_us"`            // largest scheduling delay of the test process itself while the scenario ran
 	StallAtGT      bool      `json:"stalled_across_global_timeout,omitempty"`
 	Infra          string    `json:"infra,omitempty"`
+	Term           []termCall `json:"terminate_calls,omitempty"` // part terminate: every TerminateStream call made and what it returned
+	TermUnseen     bool       `json:"terminate_filter_never_ran,omitempty"`
 }
 
 type run struct {
@@ -286,6 +288,7 @@ func (r *run) serveH1(host, conn int, c net.Conn) {
 		body, _ := io.ReadAll(req.Body)
 		tok := req.Header.Get(mesh.TokenHeader)
 		if r.isAux(tok) {
+			r.holdProbe(tok)
 			b := "aux:" + tok
 			fmt.Fprintf(c, "HTTP/1.1 200 OK\r\nContent-Length: %d\r\n%s: %s\r\n%s: up\r\n%s: -1\r\n\r\n%s", len(b), mesh.TokenHeader, tok, originHeader, attemptHeader, b)
 			continue
@@ -332,6 +335,7 @@ func (r *run) serveBolt(host, conn int, c net.Conn) {
 			if garbled {
 				continue
 			}
+			r.holdProbe(x.Token)
 			wmu.Lock()
 			_, _ = c.Write(mesh.XResponse("bolt", uint32(x.ID), 0, x.Token, []byte("aux:"+x.Token)))
 			wmu.Unlock()
@@ -766,6 +770,10 @@ func runScenario(sc *Scenario) (res *result) {
 	if sc.FilterDelayUs > 0 {
 		opts.StreamFilters = append(opts.StreamFilters, v2.Filter{Type: delayFilterType, Config: map[string]interface{}{"delay_us": sc.FilterDelayUs}})
 	}
+	if sc.Term != nil {
+		opts.StreamFilters = append(opts.StreamFilters, v2.Filter{Type: termFilterType, Config: map[string]interface{}{"token": r.tok}})
+		defer termForget(r.tok)
+	}
 	var err error
 	for try := 0; ; try++ {
 		caseMu.Lock()
@@ -810,6 +818,11 @@ func runScenario(sc *Scenario) (res *result) {
 	if err := cl.send(r.request(r.tok, idMain, sc.Oneway, false)); err != nil {
 		res.Infra = "send: " + err.Error()
 		return
+	}
+
+	var term *termDriver
+	if sc.Term != nil {
+		term = startTerm(r, cl, base, t0)
 	}
 
 	rel := func(t time.Time) int64 { return t.Sub(t0).Microseconds() }
@@ -876,6 +889,13 @@ func runScenario(sc *Scenario) (res *result) {
 		}
 	}
 
+	if term != nil {
+		term.wait(t0.Add(r.globalD() + 4*time.Second))
+		for time.Now().Before(term.quietUntil()) { // a reply a late call produced has to have reached the client
+			time.Sleep(time.Millisecond)
+		}
+	}
+
 	// follow-up exchange on the same connection: a late second reply to the first request would surface here
 	if !closed {
 		r.mu.Lock()
@@ -885,6 +905,9 @@ func runScenario(sc *Scenario) (res *result) {
 			n0, _ := cl.state()
 			ptok := "p" + r.tok
 			_ = cl.send(r.request(ptok, idProbe, false, true))
+			if term != nil {
+				term.duringProbe()
+			}
 			if cl.waitN(n0+1, time.Now().Add(3*time.Second)) {
 				cl.mu.Lock()
 				o := cl.resp[n0]
@@ -935,6 +958,9 @@ func runScenario(sc *Scenario) (res *result) {
 	}
 	cl.mu.Unlock()
 	res.Arrivals = r.snapshot()
+	if term != nil {
+		res.Term, res.TermUnseen = term.calls()
+	}
 	res.MaxStallUs = maxStall(t0, time.Now()).Microseconds()
 	gtAt := t0.Add(r.globalD())
 	res.StallAtGT = maxStall(gtAt.Add(-3*time.Millisecond), gtAt.Add(3*time.Millisecond)) > 0
